@@ -457,6 +457,14 @@ func (d *Driver) stepRules() {
 	w.Res.Count("ops_forbidden_offer", 1)
 	genActor := w.Nodes[0].Actor
 	amt := spice.Melange{Currency: uint64(1 + r.Intn(3))}
+	// the rules hold for every payload: spice only, data only (a contract), data and spice
+	var data []byte
+	switch r.Intn(3) {
+	case 1:
+		data, amt = []byte("contract under a forbidden issuer"), spice.Melange{}
+	case 2:
+		data = []byte("contract with spice under a forbidden issuer")
+	}
 	to := d.randUser()
 	var rule, entry string
 	var offered *accountant.Vertex
@@ -473,7 +481,7 @@ func (d *Driver) stepRules() {
 			if r.Intn(2) == 0 && len(w.Nodes) > 1 {
 				sealer = w.Nodes[(n.Idx+1)%len(w.Nodes)].Actor // a wallet that is itself a node
 			}
-			t = w.NewTrx(sealer, to.Addr, amt, nil)
+			t = w.NewTrx(sealer, to.Addr, amt, data)
 			l, rr, wgt, ok := d.pickParents(n)
 			if !ok {
 				return
@@ -481,7 +489,7 @@ func (d *Driver) stepRules() {
 			v := ForgeVertex(sealer, t, l, rr, wgt, w.Now())
 			offered = &v
 		} else {
-			t = w.NewTrx(n.Actor, to.Addr, amt, nil)
+			t = w.NewTrx(n.Actor, to.Addr, amt, data)
 		}
 		trxHash = t.Hash
 		if offered == nil {
@@ -490,7 +498,7 @@ func (d *Driver) stepRules() {
 		}
 	case 1: // issuer is the genesis wallet
 		rule = "genesis-wallet-spends"
-		t := w.NewTrx(genActor, to.Addr, amt, nil)
+		t := w.NewTrx(genActor, to.Addr, amt, data)
 		trxHash = t.Hash
 		if viaGossip {
 			l, rr, wgt, ok := d.pickParents(n)
@@ -530,11 +538,11 @@ func (d *Driver) stepRules() {
 		var t transaction.Transaction
 		switch rule {
 		case "self-sealed":
-			t = w.NewTrx(sealer, to.Addr, amt, nil)
+			t = w.NewTrx(sealer, to.Addr, amt, data)
 		case "empty-transaction":
 			t = w.NewTrx(d.randUser(), to.Addr, spice.Melange{}, nil)
 		default:
-			t = w.NewTrx(genActor, to.Addr, amt, nil)
+			t = w.NewTrx(genActor, to.Addr, amt, data)
 		}
 		trxHash = t.Hash
 		// an honest parent the node does not know yet
